@@ -119,10 +119,52 @@ type server struct {
 // schemaDrift: which definitions of the server's schema are no longer what they were when the server was built
 func (s *server) schemaDrift() string { return schemaDiff(s.esHash, schemaHashes(s.es)) }
 
+// the schema of a fresh-server oracle. A freshly constructed server has a freshly loaded schema; loading one per
+// oracle request is the most expensive part of an oracle server, so the oracle servers of requests that cannot
+// reach the introspection wrappers (no `__` anywhere in the request) take theirs from a spare one that is compared
+// with its hash at load time, and replaced, every 64 uses
+var oracleSpare *ast.Schema
+var oracleSpareHash map[string]uint64
+var oracleSpareUses int
+
+func oracleSchema(q *rq) *ast.Schema {
+	if q == nil || strings.Contains(q.body, "__") || strings.Contains(q.rawURL, "__") || strings.Contains(q.rawURL, "%5F%5F") || strings.Contains(q.rawURL, "%5f%5f") || strings.Contains(q.body, "\\u005") || strings.Contains(q.body, "%5") {
+		return loadSchema()
+	}
+	if oracleSpare != nil && oracleSpareUses >= 64 {
+		if d := schemaDiff(oracleSpareHash, schemaHashes(oracleSpare)); d != "" {
+			panic("the schema of the fresh-server oracles was changed by requests without introspection: " + d)
+		}
+		oracleSpare = nil
+	}
+	if oracleSpare == nil {
+		oracleSpare, oracleSpareUses = loadSchema(), 0
+		oracleSpareHash = schemaHashes(oracleSpare)
+	}
+	oracleSpareUses++
+	return oracleSpare
+}
+
+// newOracle: the freshly constructed server a request is compared with
+func newOracle(q *rq, hdrName string, seedAPQ map[string]string) *server {
+	for _, text := range seedAPQ { // a hash-only request executes a registered text
+		if strings.Contains(text, "__") {
+			return newServerWith(loadSchema(), "none", "map", hdrName, seedAPQ)
+		}
+	}
+	return newServerWith(oracleSchema(q), "none", "map", hdrName, seedAPQ)
+}
+
 func newServer(qcKind, apqKind, hdrName string, seedAPQ map[string]string) *server {
+	es := loadSchema()
+	s := newServerWith(es, qcKind, apqKind, hdrName, seedAPQ)
+	s.esHash = schemaHashes(es)
+	return s
+}
+
+func newServerWith(es *ast.Schema, qcKind, apqKind, hdrName string, seedAPQ map[string]string) *server {
 	s := &server{pre: &observer{name: "pre"}, post: &observer{name: "post"}, hdrName: hdrName, hdr: mkHdrCfg(hdrName)}
-	s.es = loadSchema()
-	s.esHash = schemaHashes(s.es)
+	s.es = es
 	s.h = handler.New(echoSchema{s.es})
 	tg, tp, tf, tq := s.hdr.transports()
 	s.h.AddTransport(tg)
@@ -311,7 +353,7 @@ func oracle(q *rq, hdrName, hitKey, hitVal string, hit bool) response {
 	if hit && shaOf(hitVal) == hitKey {
 		seed[hitKey] = hitVal
 	}
-	return newServer("none", "map", hdrName, seed).serve(q)
+	return newOracle(q, hdrName, seed).serve(q)
 }
 
 // preRegister registers catalogue texts as persisted queries; returns what a fresh server is seeded with
@@ -348,7 +390,7 @@ func runGroup(sid int, cfgName string, gr group, pre []int) {
 	for i, q := range gr.reqs {
 		runtime.GC()
 		runtime.GC()
-		orc := newServer("none", "map", chdr, seedAPQ).serve(q)
+		orc := newOracle(q, chdr, seedAPQ).serve(q)
 		r := &record{sid: sid, idx: i, q: q, resp: resps[i], obs: "-", cfg: cfgName}
 		if parked[i] {
 			r.q.tags = append(r.q.tags, "parked")
@@ -477,11 +519,15 @@ func emit(r *record, orc response, mode string) {
 	if extra == "" {
 		extra = "-"
 	}
+	orcText := "=" // the fresh server's response, `=` when it is the response
+	if orc != r.resp {
+		orcText = tsv(orc.String())
+	}
 	// R sid idx mode cfg apqHit qcHit reused | enc | obs | verdict | extra | tags | request | response | oracle response | request as JSON
 	js, _ := json.Marshal(wireRq{r.q.kind, r.q.method, r.q.rawURL, r.q.hdrs, r.q.body, r.q.enc})
 	fmt.Fprintf(out, "R\t%d\t%d\t%s\t%s\t%d\t%d\t%d\t%s\t%s\t%s\t%s\t%s\t%s\t%s\t%s\t%s\n", r.sid, r.idx, mode, r.cfg, b2i(r.apqHit), b2i(r.qcHit), b2i(r.reused),
 		r.q.enc, r.obs, verdict, strings.TrimSpace(extra), strings.Join(r.q.tags, ","),
-		tsv(fmt.Sprintf("%s ?%s %v %s", r.q.method, r.q.rawURL, r.q.hdrs, r.q.body)), tsv(r.resp.String()), tsv(orc.String()), hx(string(js)))
+		tsv(fmt.Sprintf("%s ?%s %v %s", r.q.method, r.q.rawURL, r.q.hdrs, r.q.body)), tsv(r.resp.String()), orcText, hx(string(js)))
 }
 
 // ---------------------------------------------------------------- definitions the model needs
@@ -572,6 +618,15 @@ func main() {
 		nseq, seqLen, nbatch, batchN, ngroup, nws = 2000, 40, 120, 96, 3000, 1200
 	}
 	root := rng.New(*seed)
+	// every oracle request forces two GC cycles (they empty the sync.Pool); a forced cycle wakes a mark worker per P,
+	// so the phases in which one request is served at a time run on few Ps; the concurrent batches get all of them
+	allProcs := runtime.GOMAXPROCS(0)
+	fewProcs := func() {
+		if allProcs > 4 {
+			runtime.GOMAXPROCS(4)
+		}
+	}
+	fewProcs()
 	var recs []*record
 	if !*race {
 		// directed histories first, then random ones
@@ -670,6 +725,7 @@ func main() {
 			qs[i] = g.request()
 		}
 		resps := make([]response, batchN)
+		runtime.GOMAXPROCS(allProcs)
 		var wg sync.WaitGroup
 		workers := 8
 		for w := 0; w < workers; w++ {
@@ -682,6 +738,7 @@ func main() {
 			}(w)
 		}
 		wg.Wait()
+		fewProcs()
 		srv.apq.take()
 		srv.qc.take()
 		bad := srv.qc.changedDocs()
@@ -691,7 +748,7 @@ func main() {
 		for i, q := range qs {
 			runtime.GC()
 			runtime.GC()
-			orc := newServer("none", "map", hdrName, seedAPQ).serve(q)
+			orc := newOracle(q, hdrName, seedAPQ).serve(q)
 			r := &record{sid: 100000 + base + b, idx: i, q: q, resp: resps[i], obs: "-", cfg: cfgName}
 			if i == 0 {
 				r.docsBad, r.unlawful, r.drift, r.sdrift = bad, unl, drift, sdrift
